@@ -200,6 +200,8 @@ def entry(a, idx, env=None, _before=None):
             return UNKNOWN
     # ---- arrays assembled by stores
     alloc = root_stores(a)
+    if alloc is not None and alloc.tags.get('stores_incomplete'):
+        return UNKNOWN          # written through a view whose selection does not translate into the array's own coordinates
     if alloc is not None and alloc.tags.get('alloc') in ('zeros', 'ones', 'empty') and (alloc is a or alloc.buf is a.buf):
         added = []
         for st in reversed(alloc.tags.get('stores', [])):
